@@ -83,7 +83,8 @@ def replay_behaviour(arg):
     hist = beh["hist"]
     rng = random.Random(seed)
     drift = []
-    ex = Execution(programs, procof)
+    # the caller's spelling of a path is immaterial: every third replay uses non-canonical spellings
+    ex = Execution(programs, procof, spell_seed=(seed if seed % 3 == 0 else 0))
     ex.prestart()
 
     def chooser(n, en, ex_):
@@ -116,7 +117,7 @@ def replay_behaviour(arg):
         if kl != real:
             drift.append(f"kernel table {real} != spec {kl}")
     return {"programs": programs, "procof": procof, "schedule": sched, "trace": ex.trace(), "errors": ex.errors,
-            "outcomes": ex.outcomes, "drift": drift[:1]}
+            "outcomes": ex.outcomes, "drift": drift[:1], "spell_seed": ex.spell_seed}
 
 
 def run(tier: str, seed: int, v: core.Verdict):
